@@ -403,7 +403,6 @@ def handle (op : String) (args impl : List String) : Option Reply :=
     let model : String :=
       match digests with
       | none => "panic"                 -- an `assert!` of `Enzyme::new`
-      | some [] => "panic"              -- `group_digests` indexes `digests[0]` (outside the property, FIXES.md)
       | some ds => "ok " ++ renderPeps (formsOf ds (f32b lo) (f32b hi)) ++ " " ++ renderPeps (formsOf ds ninf pinf)
     let spec : String :=
       match impl, digests with
@@ -435,7 +434,6 @@ def handle (op : String) (args impl : List String) : Option Reply :=
             | some v => v
             | none => if verdicts.all (· == "ok") then "ok" else "na"
           | _, _ => "na"
-      | ["panic"], some [] => "na"
       | ["panic"], none => "na"
       | _, _ => "bad:reply_unreadable"
     pure (exact model (" ".intercalate impl) spec)
